@@ -42,6 +42,7 @@ import (
 	"go.miragespace.co/specter/util/verifhook"
 
 	"go.uber.org/zap"
+	"go.uber.org/zap/zapcore"
 )
 
 // ---------------------------------------------------------------------------------------------
@@ -114,9 +115,16 @@ func die(code int, format string, a ...any) {
 	os.Exit(code)
 }
 
+// clientLogger: nil = no logging
+var clientLogger *zap.Logger
+
 func newClient(cfg *client.Config, rec rtt.Recorder) (*client.Client, *fakeTC) {
+	lg := clientLogger
+	if lg == nil {
+		lg = zap.NewNop()
+	}
 	c, err := client.NewClient(context.Background(), client.ClientConfig{
-		Logger:        zap.NewNop(),
+		Logger:        lg,
 		Configuration: cfg,
 		Recorder:      rec,
 	})
@@ -543,7 +551,16 @@ func runConn(dir string) {
 			return out
 		}
 		cfg := client.VerifMemConfig(path, "gw.test:443", "", keyPem, list(sc.Init))
+		// a failing save is reported through the logger: that report is a gate ("the process is inside the save")
+		clientLogger = zap.New(zapcore.NewCore(zapcore.NewJSONEncoder(zap.NewProductionEncoderConfig()), zapcore.AddSync(io.Discard), zapcore.ErrorLevel),
+			zap.Hooks(func(e zapcore.Entry) error {
+				if strings.HasPrefix(e.Message, "Error saving to config file") {
+					verifhook.At("client:save:log", 0)
+				}
+				return nil
+			}))
 		c, f := newClient(cfg, nil)
+		clientLogger = nil
 		c.VerifAddConnection(&protocol.Node{Id: 1, Address: "gw1.test:443"})
 		// start-up as in production: the first sync builds the router and saves the file
 		c.SyncConfigTunnels(ctx)
